@@ -28,6 +28,11 @@ ROWS = {
     'shared_ref': [R('T', Id='u:5'), R('V', Id='u:5'), R('V', Id='u:6'), R('S', Id='u:1', X_Id='u:5'),
                    R('S', Id='u:2', X_Id='u:6'), R('S', Id='u:3', X_Id='u:0')],
 }
+ROWS['grid'] = [R('P', A='i:1', B='i:2'), R('P', A='i:2', B='i:1'), R('P', A='i:1', B='i:1'),
+                R('C1', Id='u:1', PA='i:1', PB='i:2'), R('C1', Id='u:2', PA='i:2', PB='i:1'),
+                R('C2', Id='u:3', PA='i:1', PB='i:2'), R('C2', Id='u:4', PA='i:2', PB='i:1')]
+ROWS['phrase_ends'] = [R('P', Id='u:5'), R('P', Id='u:6'), R('D', Id='u:1', O_Id='u:5', W_Id='u:6'),
+                       R('D', Id='u:2', O_Id='u:6', W_Id='u:0'), R('D', Id='u:3', O_Id='u:7', W_Id='u:5')]
 MAXROWS = {'quick': 3, 'thorough': 4}
 
 
@@ -88,7 +93,7 @@ def plans():
                    'maxrows': MAXROWS, 'bound': 4, 'invariants': ['TypeOK', 'Symmetric', 'PermutationInvariant'],
                    'properties': ['LoadIsJoin'], 'must_cover': ('VLoad',), 'budget': 1500, 'budget_thorough': 60000,
                    'maxlen': 1, 'decorate': decorate, 'obs': obs, 'random': random_runs})
-    for name in ('valued', 'keywords', 'assoc_reflexive', 'reflexive_1m'):
+    for name in ('valued', 'keywords', 'assoc_reflexive', 'reflexive_1m', 'grid', 'phrase_ends', 'mixed_case'):
         ps.append({'name': name + '_random', 'schema': name, 'model': False, 'bound': 4, 'decorate': decorate,
                    'obs': obs, 'random': random_runs})
     return ps
@@ -159,7 +164,8 @@ def api_runs(schema, rnd, tier):
 def api_plans():
     obs = metagen.battery(['nav', 'sel', 'chk_assoc'], per_step=1)
     ps = []
-    for name in ('one_many', 'one_one', 'many_one_2key', 'reflexive_1m', 'assoc_class', 'subsuper', 'shared_ref', 'valued'):
+    for name in ('one_many', 'one_one', 'many_one_2key', 'reflexive_1m', 'assoc_class', 'subsuper', 'shared_ref', 'valued',
+                 'grid', 'phrase_ends', 'mixed_case'):
         ps.append({'name': name + '_api', 'schema': name, 'model': False, 'bound': 4, 'obs': obs, 'random': api_runs,
                    'opt': {'spell_attr': True}})
     return ps
